@@ -580,6 +580,9 @@ pub struct Shim {
     /// GE_FAIL_AT (only this request fails)
     #[serde(default)]
     pub fail_at: Option<u64>,
+    /// ambient variables of the user's shell (locale, terminal): the outcome may not depend on them
+    #[serde(default)]
+    pub ambient: Vec<(String, String)>,
 }
 
 struct Run {
@@ -606,6 +609,9 @@ fn run_hdwallet(args: &[String], shim: &Shim, timeout: Duration) -> Result<Run, 
         }
         log_path = Some(lp);
     }
+    for (k, v) in &shim.ambient {
+        inv = inv.env(k, v.clone());
+    }
     let out = cli::run(&p.cli, &inv, timeout);
     let calls = match &log_path {
         Some(lp) => {
@@ -620,9 +626,10 @@ fn run_hdwallet(args: &[String], shim: &Shim, timeout: Duration) -> Result<Run, 
         args.iter().map(|a| format!("{a:?}")).collect::<Vec<_>>().join(" "),
         if shim.preload {
             format!(
-                "LD_PRELOAD=<shim> GE_LOG=<file>{}{}",
+                "LD_PRELOAD=<shim> GE_LOG=<file>{}{}{}",
                 shim.ge_seed.map(|s| format!(" GE_SEED={s}")).unwrap_or_default(),
-                shim.fail_from.map(|k| format!(" GE_FAIL_FROM={k}")).unwrap_or_default()
+                shim.fail_from.map(|k| format!(" GE_FAIL_FROM={k}")).unwrap_or_default(),
+                shim.ambient.iter().map(|(k, v)| format!(" {k}={:?}", crate::engine::truncate(v, 40))).collect::<String>()
             )
         } else {
             "no shim".to_string()
@@ -849,26 +856,26 @@ fn new_cases(ctx: &Ctx, seeds_per_length: u64, big_seeds: u64) -> Vec<NewCase> {
         ctr += 1;
         ctx.sub_seed(tag, ctr)
     };
-    let seeded = |s: u64| Shim { preload: true, ge_seed: Some(s), fail_from: None, fail_at: None };
+    let seeded = |s: u64| Shim { preload: true, ge_seed: Some(s), fail_from: None, fail_at: None, ambient: vec![] };
     // every length 0..=40 x shim seeds, `-n L`
     for l in 0..=40u64 {
         for _ in 0..seeds_per_length {
             v.push(new_case(Some(l), "-n L", seeded(seed("new"))));
         }
         // failure at the first (only) request
-        v.push(new_case(Some(l), "-n L", Shim { preload: true, ge_seed: Some(seed("new")), fail_from: Some(0), fail_at: None }));
+        v.push(new_case(Some(l), "-n L", Shim { preload: true, ge_seed: Some(seed("new")), fail_from: Some(0), fail_at: None, ambient: vec![] }));
     }
     for l in bip39::LENGTHS {
         let l = l as u64;
         for _ in 0..big_seeds {
             // failure at request 0 with other seeds, failure only after the last request, other spellings
-            v.push(new_case(Some(l), "-n L", Shim { preload: true, ge_seed: Some(seed("new")), fail_from: Some(0), fail_at: None }));
-            v.push(new_case(Some(l), "-n L", Shim { preload: true, ge_seed: Some(seed("new")), fail_from: Some(1), fail_at: None }));
+            v.push(new_case(Some(l), "-n L", Shim { preload: true, ge_seed: Some(seed("new")), fail_from: Some(0), fail_at: None, ambient: vec![] }));
+            v.push(new_case(Some(l), "-n L", Shim { preload: true, ge_seed: Some(seed("new")), fail_from: Some(1), fail_at: None, ambient: vec![] }));
             for sp in ["-nL", "--length L", "--length=L", "-n=L"] {
                 v.push(new_case(Some(l), sp, seeded(seed("new"))));
             }
             // the real source, observed through the shim
-            v.push(new_case(Some(l), "-n L", Shim { preload: true, ge_seed: None, fail_from: None, fail_at: None }));
+            v.push(new_case(Some(l), "-n L", Shim { preload: true, ge_seed: None, fail_from: None, fail_at: None, ambient: vec![] }));
         }
     }
     for l in BIG_LENGTHS {
@@ -878,13 +885,20 @@ fn new_cases(ctx: &Ctx, seeds_per_length: u64, big_seeds: u64) -> Vec<NewCase> {
     }
     for _ in 0..big_seeds.max(2) {
         v.push(new_case(None, "default", seeded(seed("new"))));
-        v.push(new_case(None, "default", Shim { preload: true, ge_seed: Some(seed("new")), fail_from: Some(0), fail_at: None }));
+        v.push(new_case(None, "default", Shim { preload: true, ge_seed: Some(seed("new")), fail_from: Some(0), fail_at: None, ambient: vec![] }));
     }
     for t in [
         "+12", "012", "0012", " 12", "12 ", "0x0c", "0xc", "1_2", "12.0", "1e1", "-1", "-0", "", "twelve", "\u{661}\u{662}", "\u{ff11}\u{ff12}",
         "18446744073709551616", "99999999999999999999999999", "12,15", "12\n",
     ] {
         v.push(odd_case(t, seeded(seed("new"))));
+    }
+    // every third case runs under generated ambient variables (locale, terminal, ...)
+    for (i, c) in v.iter_mut().enumerate() {
+        if i % 3 == 1 {
+            let tape = crate::engine::Prng::new(ctx.sub_seed("ambient", i as u64)).bytes(64);
+            c.shim.ambient = cli::ambient_env(&mut U::new(&tape));
+        }
     }
     v
 }
@@ -928,7 +942,7 @@ fn judge_vanity(c: &VanityCase, cls: &mut Classifier) -> Verdict {
     if skip_after_timeouts(cls) {
         return Ok(());
     }
-    let shim = Shim { preload: true, ge_seed: Some(c.ge_seed), fail_from: c.fail_from, fail_at: None };
+    let shim = Shim { preload: true, ge_seed: Some(c.ge_seed), fail_from: c.fail_from, fail_at: None, ambient: vec![] };
     let r = run_hdwallet(&c.args, &shim, VANITY_TIMEOUT)?;
     if r.out.timed_out {
         timed_out(cls);
@@ -1081,7 +1095,7 @@ fn judge_real(c: &RealCase, cls: &mut Classifier) -> Verdict {
         return Ok(());
     }
     let args = vec!["new".to_string(), "-n".to_string(), refimpl_dec(c.length)];
-    let shim = Shim { preload: c.logged, ge_seed: None, fail_from: None, fail_at: None };
+    let shim = Shim { preload: c.logged, ge_seed: None, fail_from: None, fail_at: None, ambient: vec![] };
     let mut seen: Vec<String> = vec![];
     for run in 0..c.runs {
         if run > 0 {
@@ -1178,7 +1192,7 @@ fn judge_transient(c: &TransientCase, cls: &mut Classifier) -> Verdict {
         return Ok(());
     }
     let args: Vec<String> = ["new", "--vanity-prefix", &format!("0x{}", c.digits), "-j", &c.threads.to_string()].iter().map(|s| s.to_string()).collect();
-    let shim = Shim { preload: true, ge_seed: Some(c.ge_seed), fail_from: None, fail_at: Some(c.fail_at) };
+    let shim = Shim { preload: true, ge_seed: Some(c.ge_seed), fail_from: None, fail_at: Some(c.fail_at), ambient: vec![] };
     let r = run_hdwallet(&args, &shim, Duration::from_secs(120))?;
     if r.out.timed_out {
         timed_out(cls);
